@@ -7,6 +7,7 @@ import (
 	"bytes"
 
 	"github.com/metrico/qryn/reader/service"
+	runmarshal "github.com/metrico/qryn/reader/utils/unmarshal"
 	"github.com/metrico/qryn/zzverif/vrt"
 	"github.com/metrico/qryn/zzverif/vsql"
 )
@@ -116,6 +117,17 @@ func VH_C06_zipkin_roundtrip() {
 		vrt.Assert(tag, "tag-present-after-read")
 		vrt.Assert(svc, "service-name-attribute-present")
 		vrt.Assert(sr.ServiceName == wantService, "service-name-roundtrips")
+		// the JSON shape the trace endpoints serve
+		js := runmarshal.SpanToJSONSpan(sp)
+		vrt.Assert(js.TraceId == "0000000000000000000000000000aa0"+string([]byte{th}) && js.TraceID == js.TraceId, "served-trace-id-is-the-pushed-hex-id")
+		vrt.Assert(js.SpanId == "000000000000bb0"+string([]byte{sh}) && js.SpanID == js.SpanId, "served-span-id-is-the-pushed-hex-id")
+		vrt.Assert(js.Name == sp.Name && js.StartTimeUnixNano == sp.StartTimeUnixNano && js.EndTimeUnixNano == sp.EndTimeUnixNano, "served-name-and-times")
+		if hasParent {
+			vrt.Assert(js.ParentSpanId == "000000000000cc01", "served-parent-is-the-pushed-hex-id")
+		} else {
+			vrt.Assert(js.ParentSpanId == "", "served-span-has-no-parent")
+		}
+		vrt.Assert(js.ServiceName == wantService, "served-service-name")
 	}
 	vrt.Assert(n == 1, "exactly-one-span-read-back")
 	vrt.Reach("end")
